@@ -11,7 +11,7 @@ pub fn prop() -> Prop {
     Prop {
         id: "C20",
         level: "model_checking",
-        rule: "the real jawk binary built from the working tree, spawned with pipes: 18 inputs (clean, noisy, junk words and broken literals between values, truncated tail, empty; 3000 rows, one 70 KB row, 1500 diagnostics, a long clean stream with a truncated tail - output beyond every stdout buffer) x 4 --on-error policies x 27 configurations (14 valid pipelines - three of them ending at a --take whose last row spans several lines -, two with --skip/--take at the edge of the 64-bit range, incl. options unrelated to error handling such as --only-objects-and-arrays, --unique, cache size, styles, split+group; 11 classes of invalid configuration, missing input file, file argument; every arrangement of <=3 file arguments over {readable, missing} naming a missing one, alone, with --merge and with --take 1: must fail whatever the library run says) x stdout in {pipe, pipe whose reader is gone (EPIPE), /dev/full} x row separator with/without newline; all combinations; non-trivial = the run produces output or must fail; distinct by construction; clean inputs through a pipe named as a file (/dev/stdin); inputs that cannot be read: /proc/self/mem as a file argument after a readable file, a directory as the standard input; the version and help requests (long and short, alone and next to other options) and four usage errors",
+        rule: "the real jawk binary built from the working tree, spawned with pipes: 18 inputs (clean, noisy, junk words and broken literals between values, truncated tail, empty; 3000 rows, one 70 KB row, 1500 diagnostics, a long clean stream with a truncated tail - output beyond every stdout buffer) x 4 --on-error policies x 27 configurations (14 valid pipelines - three of them ending at a --take whose last row spans several lines -, two with --skip/--take at the edge of the 64-bit range, incl. options unrelated to error handling such as --only-objects-and-arrays, --unique, cache size, styles, split+group; 13 classes of invalid configuration, missing input file, file argument; every arrangement of <=3 file arguments over {readable, missing} naming a missing one, alone, with --merge and with --take 1: must fail whatever the library run says) x stdout in {pipe, pipe whose reader is gone (EPIPE), /dev/full} x row separator with/without newline; all combinations; non-trivial = the run produces output or must fail; distinct by construction; clean inputs through a pipe named as a file (/dev/stdin); inputs that cannot be read: /proc/self/mem as a file argument after a readable file, a directory as the standard input; the version and help requests (long and short, alone and next to other options) and four usage errors",
         explanation: "every combination is executed as a child process and compared with the in-process run of the same arguments: stdout = exactly the in-process stdout sink, under --on-error=stderr the diagnostics = exactly the in-process stderr sink and none on stdout, exit status 0 iff the in-process Result is Ok and stdout accepted every byte, otherwise non-zero with a non-empty stderr",
         assumptions: a,
         guards: vec!["a-pipe-named-as-a-file", "missing-file-in-every-position", "file-name-that-is-not-text", "version-and-help", "unreadable-input", "output-beyond-every-buffer", "exit-nonzero-on-config-error", "exit-nonzero-on-full-stdout", "epipe", "stderr-policy-diagnostics", "unterminated-buffer-flush", "panic-policy-fails", "missing-file"],
@@ -65,6 +65,8 @@ fn configs() -> Vec<(&'static str, Vec<&'static str>, bool)> {
         ("bad-expression", vec!["--filter=(len"], false),
         ("unknown-function", vec!["--select=(nosuch 1)"], false),
         ("bad-set", vec!["--set=novalue"], false),
+        ("set-variable-without-a-value", vec!["--set=limit=.max", "--select=:limit=l"], false),
+        ("set-variable-whose-call-gives-nothing", vec!["--set=limit=(/ \"a\" 2)"], false),
         ("style-mismatch", vec!["--output-style=csv", "--select=.a", "--style=pretty"], false),
         ("csv-without-selection", vec!["--output-style=csv"], false),
         ("bad-option-value", vec!["--on-error=abort"], false),
